@@ -23,6 +23,10 @@ class Hist:
             self.build_error = f"{type(e).__name__}: {e}"[:300]
 
     def propose(self, mix=None):
+        if mix is None and self.objs is not None and self.rnd.random() < 0.07:
+            e = edits.fix_count_edit(self.rnd, self.spec, self.objs)
+            if e is not None:
+                return e
         return edits.rand_edit(self.rnd, self.spec, mix)
 
     def spec_after(self, edit):
